@@ -53,6 +53,8 @@ def mk(v, carrier):
         return np.ma.MaskedArray(arr, mask=mask) if any(mask) else arr
     data = [int(e[1:]) if isinstance(e, str) else e for e in v]
     mask = [isinstance(e, str) for e in v]
+    if carrier == "f8nan":  # float vector as it comes back from a DataFrame: NaN where the row was not evaluated
+        return np.array([np.nan if m else float(d) for d, m in zip(data, mask)], dtype="float64")
     if carrier == "ma":
         return np.ma.MaskedArray(np.array(data, dtype="uint8"), mask=mask)
     if carrier == "ma_nomask" and not any(mask):
@@ -100,18 +102,25 @@ def judge(entry, vectors, out, extra=""):
     return vs, tuple(vals)
 
 
-def store_run(vectors):
+def store_run(vectors, rot=0):
     """Fold the vectors through PandasStore: one (stream, test) result per vector."""
     from ioos_qc import qartod
     from ioos_qc.results import CallResult, ContextResult
     from ioos_qc.stores import PandasStore
 
+    from ioos_qc import argo, axds
+
     n = len(vectors[0])
     crs = []
+    # every vector is the result of a different test function (the roll-up covers all of them, whatever their metadata)
+    fns = [("qartod", qartod.gross_range_test), ("qartod", qartod.density_inversion_test), ("argo", argo.pressure_increasing_test),
+           ("qartod", qartod.flat_line_test), ("axds", axds.valid_range_test), ("argo", argo.speed_test), ("qartod", qartod.spike_test),
+           ("qartod", qartod.climatology_test), ("qartod", qartod.location_test), ("qartod", qartod.attenuated_signal_test), ("qartod", qartod.rate_of_change_test)]
     for j, v in enumerate(vectors):
+        pkg, f = fns[(j + rot) % len(fns)]
         crs.append(ContextResult(
             stream_id=f"s{j}",
-            results=[CallResult(package="qartod", test="gross_range_test", function=qartod.gross_range_test, results=mk(v, "ma"))],
+            results=[CallResult(package=pkg, test=f.__name__, function=f, results=mk(v, "ma"))],
             subset_indexes=np.ones(n, dtype=bool),
             data=np.arange(n, dtype="float64"),
             tinp=alpha.dt64(alpha.regular_secs(n)),
@@ -182,7 +191,7 @@ def check_case(case):
         vs, obs = judge(entry, vectors, out)
         return vs, nt, obs, 0, 1
     if entry == "store":
-        res = alpha.call(store_run, vectors)
+        res = alpha.call(store_run, vectors, case.get("rot", 0))
         if isinstance(res, alpha.Raised):
             return [V(f"{PROP}|store|symptom={res!r}", f"PandasStore roll-up raised {res.name}: {res.msg}", None, repr(res))], nt, ("exc",), 0, 1
         agg, col, cols = res
@@ -249,6 +258,8 @@ def run_task(task, acc):
                         acc.bump("canonical_states(multisets)")
                     yield dict(entry="qartod_compare", vectors=vectors, carrier="ma")
                     if k <= 2:
+                        if all(not isinstance(e, str) or e == "m4" for v in vectors for e in v) and not any(e in (0, 7) for v in vectors for e in v):
+                            yield dict(entry="qartod_compare", vectors=vectors, carrier="f8nan")
                         nomask = not any(isinstance(e, str) for v in vectors for e in v)
                         if nomask:
                             for c in ("nd", "f8", "i8", "ma_nomask"):
@@ -324,4 +335,7 @@ def run_task(task, acc):
             for k in range(1, K + 1):
                 for rest in itertools.product(pool, repeat=k - 1):
                     yield dict(entry="store", vectors=[first, *rest])
+                    if k == 2:
+                        for rot in range(1, 11):
+                            yield dict(entry="store", vectors=[first, *rest], rot=rot)
         run_cases(acc, gen(), check_case)
